@@ -59,7 +59,7 @@ def run_identity(ctx, rng):
     wit = {"moment": kind, "bound": list(bound), "y": ds.y, "groups": ds.g, "control": ds.c}
     mapping, problems = ML.align_index(moment, kind, ds, ratio, rng)
     if problems:
-        ctx.violate("index_does_not_match_definition:" + problems[0][0], detail=problems[0][1], **wit)
+        ctx.violate("index_does_not_match_definition:" + problems[0][0], detail=problems[0][1], wit=wit)
         return
     g0 = moment.gamma(ML.FixedPredictor(np.zeros(n)))
     G = np.zeros((len(idx), n))
@@ -72,15 +72,15 @@ def run_identity(ctx, rng):
         lam = ML.lam_series(moment, {ent: 1.0})
         w = np.asarray(moment.signed_weights(lam), dtype=float)
         ctx.ev("basis_identities_checked", n)
-        if not ctx.check(w.shape == (n,), "signed_weights_wrong_shape", got=list(w.shape), **wit):
+        if not ctx.check(w.shape == (n,), "signed_weights_wrong_shape", got=list(w.shape), wit=wit):
             return
         lhs, rhs = G[j, :], -w / n
         ok = bool(np.allclose(lhs, rhs, rtol=1e-9, atol=1e-12))
         ctx.check(ok, "signed_weights_is_not_the_gradient_of_lambda_gamma", entry=repr(ent), gamma_differences=lhs.tolist(),
-                  minus_weights_over_n=rhs.tolist(), **wit)
+                  minus_weights_over_n=rhs.tolist(), wit=wit)
         refw = RM.signed_weights(kind, ds.y, ds.g, {mapping[ent]: 1.0}, ratio, ds.c)
         ctx.check(bool(np.allclose(w, refw, rtol=1e-9, atol=1e-10)), "signed_weights_differs_from_definition", entry=repr(ent), got=w.tolist(),
-                  expected=refw.tolist(), **wit)
+                  expected=refw.tolist(), wit=wit)
     # affinity in h, linearity in lambda
     h1, h2 = rng.random(n), rng.random(n)
     a = float(rng.random())
@@ -88,18 +88,18 @@ def run_identity(ctx, rng):
     g1, g2 = moment.gamma(ML.FixedPredictor(h1)), moment.gamma(ML.FixedPredictor(h2))
     ctx.ev("affinity_checks")
     ctx.check(bool(np.allclose(np.asarray(ga, float), a * np.asarray(g1, float) + (1 - a) * np.asarray(g2, float), rtol=1e-9, atol=1e-12)),
-              "gamma_is_not_affine_in_the_predictor", **wit)
+              "gamma_is_not_affine_in_the_predictor", wit=wit)
     l1 = pd.Series(rng.random(len(idx)) * 3, index=moment.index)
     l2 = pd.Series(rng.random(len(idx)) * (rng.random(len(idx)) < 0.5), index=moment.index)
     cc = float(rng.uniform(0.1, 4))
     s12 = np.asarray(moment.signed_weights(l1 + cc * l2), float)
     ctx.ev("affinity_checks")
     ctx.check(bool(np.allclose(s12, np.asarray(moment.signed_weights(l1), float) + cc * np.asarray(moment.signed_weights(l2), float),
-                               rtol=1e-9, atol=1e-10)), "signed_weights_is_not_linear_in_lambda", **wit)
+                               rtol=1e-9, atol=1e-10)), "signed_weights_is_not_linear_in_lambda", wit=wit)
     # full identity on a random (lambda, h, h') - redundant by linearity, kept as an end-to-end check
     lhs = float(np.dot(l1, np.asarray(g1, float) - np.asarray(g2, float)))
     rhs = float(-np.dot(np.asarray(moment.signed_weights(l1), float), h1 - h2) / n)
-    ctx.check(close(lhs, rhs, 1e-9, 1e-11), "lambda_gamma_difference_differs_from_weighted_prediction_difference", lhs=lhs, rhs=rhs, **wit)
+    ctx.check(close(lhs, rhs, 1e-9, 1e-11), "lambda_gamma_difference_differs_from_weighted_prediction_difference", lhs=lhs, rhs=rhs, wit=wit)
     # objective
     costs = gen.pick(rng, [None, {"fp": 0.3, "fn": 2.0}, {"fp": 1.5, "fn": 0.0}])
     obj = red.ErrorRate() if costs is None else red.ErrorRate(costs=costs)
@@ -109,29 +109,29 @@ def run_identity(ctx, rng):
     e1, e2 = obj.gamma(ML.FixedPredictor(h1)).iloc[0], obj.gamma(ML.FixedPredictor(h2)).iloc[0]
     ctx.ev("objective_identities_checked")
     ctx.check(close(e1 - e2, -np.dot(wo, h1 - h2) / n, 1e-9, 1e-12), "objective_weights_are_not_the_gradient_of_the_error", costs=costs,
-              error_difference=float(e1 - e2), weighted=float(-np.dot(wo, h1 - h2) / n), **wit)
+              error_difference=float(e1 - e2), weighted=float(-np.dot(wo, h1 - h2) / n), wit=wit)
     ctx.check(bool(np.allclose(wo, RM.error_weights(ds.y, fp, fn), atol=1e-12)), "objective_weights_differ_from_definition", costs=costs,
-              got=wo.tolist(), **wit)
+              got=wo.tolist(), wit=wit)
     lam_all = pd.Series([2.5], index=["all"])
-    ctx.check(bool(np.allclose(np.asarray(obj.signed_weights(lam_all), float), 2.5 * wo, atol=1e-12)), "objective_weights_not_scaled_by_lambda", **wit)
+    ctx.check(bool(np.allclose(np.asarray(obj.signed_weights(lam_all), float), 2.5 * wo, atol=1e-12)), "objective_weights_not_scaled_by_lambda", wit=wit)
     # projection
     for trial in range(3):
         lam = pd.Series(rng.random(len(idx)) * 4 * (rng.random(len(idx)) < 0.7), index=moment.index)
         pl = moment.project_lambda(lam.copy())
         ctx.ev("projection_checks")
-        if not ctx.check(isinstance(pl, pd.Series) and len(pl) == len(idx), "project_lambda_wrong_shape", **wit):
+        if not ctx.check(isinstance(pl, pd.Series) and len(pl) == len(idx), "project_lambda_wrong_shape", wit=wit):
             break
         pl = pl.reindex(moment.index)
-        ctx.check(bool((np.asarray(pl, float) >= 0).all()), "project_lambda_negative_entry", got=np.asarray(pl, float).tolist(), lam=lam.tolist(), **wit)
+        ctx.check(bool((np.asarray(pl, float) >= 0).all()), "project_lambda_negative_entry", got=np.asarray(pl, float).tolist(), lam=lam.tolist(), wit=wit)
         b = np.asarray(moment.bound().reindex(moment.index), float)
         for h in [np.zeros(n), np.ones(n), h1, (rng.random(n) < 0.5).astype(float)] + [np.eye(n)[int(rng.integers(0, n))]]:
             gm = np.asarray(moment.gamma(ML.FixedPredictor(h)).reindex(moment.index), float)
             L0 = float(np.dot(np.asarray(lam, float), gm - b))
             L1 = float(np.dot(np.asarray(pl, float), gm - b))
-            ctx.check(L1 >= L0 - 1e-10, "project_lambda_lowers_the_lagrangian", original=L0, projected=L1, lam=lam.tolist(), projected_lam=pl.tolist(), **wit)
+            ctx.check(L1 >= L0 - 1e-10, "project_lambda_lowers_the_lagrangian", original=L0, projected=L1, lam=lam.tolist(), projected_lam=pl.tolist(), wit=wit)
         refp = RM.project_lambda({mapping[e]: float(lam[e]) for e in idx}, ratio)
         ctx.check(all(close(pl[e], refp.get(mapping[e], 0.0), 1e-10, 1e-12) for e in idx), "project_lambda_differs_from_definition",
-                  got=pl.tolist(), lam=lam.tolist(), ratio=ratio, **wit)
+                  got=pl.tolist(), lam=lam.tolist(), ratio=ratio, wit=wit)
 
 
 def run_loss_identity(ctx, rng):
@@ -155,15 +155,15 @@ def run_loss_identity(ctx, rng):
     lv = RM.loss_values(lname, yv, h, lo, hi)
     ctx.ev("objective_identities_checked")
     ctx.check(close(float(np.dot(lam, gm.reindex(m.index))), float(np.dot(w, lv) / n), 1e-9, 1e-12), "loss_moment_identity_broken",
-              lambda_gamma=float(np.dot(lam, gm.reindex(m.index))), weighted_loss=float(np.dot(w, lv) / n), lam=lam.tolist(), **wit)
+              lambda_gamma=float(np.dot(lam, gm.reindex(m.index))), weighted_loss=float(np.dot(w, lv) / n), lam=lam.tolist(), wit=wit)
     pg = {a: sum(1 for v in ds.g if v == a) / n for a in set(ds.g)}
     refw = np.array([float(lam[a]) / pg[a] for a in ds.g])
-    ctx.check(bool(np.allclose(w, refw, rtol=1e-10)), "group_loss_weights_are_not_lambda_over_group_probability", got=w.tolist(), expected=refw.tolist(), **wit)
+    ctx.check(bool(np.allclose(w, refw, rtol=1e-10)), "group_loss_weights_are_not_lambda_over_group_probability", got=w.tolist(), expected=refw.tolist(), wit=wit)
     w1 = np.asarray(m.signed_weights(), float)
     ctx.check(bool(np.allclose(w1, 1.0)), "default_loss_weights_not_one", got=w1.tolist())
     pl = m.project_lambda(lam)
     ctx.ev("projection_checks")
-    ctx.check(bool(np.allclose(np.asarray(pl, float), np.asarray(lam, float))), "project_lambda_changes_loss_multipliers", **wit)
+    ctx.check(bool(np.allclose(np.asarray(pl, float), np.asarray(lam, float))), "project_lambda_changes_loss_multipliers", wit=wit)
 
 
 def _norm(v):
@@ -200,13 +200,13 @@ def run_history(ctx, rng):
              sample={"algo": algo, "moment": kind, "bound": list(bound), "y": ds.y, "groups": ds.g, "control": ds.c, "x": ds.X[:, 0].tolist()})
     wit = {"algo": algo, "moment": kind, "bound": list(bound), "y": ds.y, "groups": ds.g, "control": ds.c}
     if problems:
-        ctx.violate("index_does_not_match_definition:" + problems[0][0], detail=problems[0][1], **wit)
+        ctx.violate("index_does_not_match_definition:" + problems[0][0], detail=problems[0][1], wit=wit)
         return
     lambdas = est.lambda_vecs_
     preds = est.predictors_
     wobj = RM.error_weights(ds.y)
     cols = list(lambdas.columns)
-    ctx.check(len(cols) == len(preds), "lambda_vecs_and_predictors_differ_in_number", lambdas=len(cols), predictors=len(preds), **wit)
+    ctx.check(len(cols) == len(preds), "lambda_vecs_and_predictors_differ_in_number", lambdas=len(cols), predictors=len(preds), wit=wit)
     for pos, col in enumerate(cols):
         p = preds[col] if isinstance(preds, pd.Series) else preds[pos]
         lam = lambdas[col]
@@ -214,18 +214,18 @@ def run_history(ctx, rng):
         yred = (w > 0).astype(int)
         if isinstance(p, DummyClassifier):
             ctx.ev("dummy_predictors_seen")
-            ctx.check(len(set(yred.tolist())) == 1, "dummy_predictor_although_relabelled_y_has_two_classes", column=repr(col), **wit)
+            ctx.check(len(set(yred.tolist())) == 1, "dummy_predictor_although_relabelled_y_has_two_classes", column=repr(col), wit=wit)
             continue
         if not hasattr(p, "fit_y_"):
             ctx.ev("predictor_without_fit_record")
             continue
         ctx.ev("learner_fit_records_compared")
         ctx.check(len(p.fit_y_) == ds.n and p.fit_y_.tolist() == yred.tolist(), "learner_not_fitted_on_labels_1_w_positive", column=repr(col),
-                  fitted_y=p.fit_y_.tolist(), expected=yred.tolist(), w=w.tolist(), lam={repr(k): float(v) for k, v in lam.items()}, **wit)
+                  fitted_y=p.fit_y_.tolist(), expected=yred.tolist(), w=w.tolist(), lam={repr(k): float(v) for k, v in lam.items()}, wit=wit)
         ctx.check(bool(np.allclose(_norm(p.fit_w_), _norm(w), rtol=1e-9, atol=1e-12)), "learner_sample_weight_not_proportional_to_abs_w",
-                  column=repr(col), fitted_w=p.fit_w_.tolist(), expected_abs_w=np.abs(w).tolist(), **wit)
+                  column=repr(col), fitted_w=p.fit_w_.tolist(), expected_abs_w=np.abs(w).tolist(), wit=wit)
         ctx.check(np.asarray(p.fit_X_).shape[0] == ds.n and bool(np.allclose(np.asarray(p.fit_X_, float)[:, 0], ds.X[:, 0])),
-                  "learner_fitted_on_different_features", column=repr(col), **wit)
+                  "learner_fitted_on_different_features", column=repr(col), wit=wit)
 
 
 def run_history_bgl(ctx, rng, red):
@@ -246,8 +246,8 @@ def run_history_bgl(ctx, rng, red):
             continue
         w = np.array([float(lam[a]) / pg[a] for a in ds.g])
         ctx.ev("learner_fit_records_compared")
-        ctx.check(bool(np.allclose(p.fit_y_, yv)), "regression_learner_fitted_on_changed_targets", column=repr(col), **wit)
+        ctx.check(bool(np.allclose(p.fit_y_, yv)), "regression_learner_fitted_on_changed_targets", column=repr(col), wit=wit)
         ctx.check(bool(np.allclose(p.fit_w_, w, rtol=1e-9, atol=1e-12)), "regression_learner_weights_are_not_lambda_over_group_probability",
-                  column=repr(col), fitted_w=p.fit_w_.tolist(), expected=w.tolist(), lam=lam.tolist(), **wit)
+                  column=repr(col), fitted_w=p.fit_w_.tolist(), expected=w.tolist(), lam=lam.tolist(), wit=wit)
         ctx.check(close(float(np.abs(np.asarray(lam, float)).sum()), gl, 1e-9), "loss_moment_grid_column_l1_norm_is_not_grid_limit",
-                  l1=float(np.abs(np.asarray(lam, float)).sum()), grid_limit=gl, **wit)
+                  l1=float(np.abs(np.asarray(lam, float)).sum()), grid_limit=gl, wit=wit)
